@@ -7,6 +7,7 @@ import ast
 import math
 from typing import Optional
 
+from ..cfg import cfg_of
 from ..concrete import Unsupported, ceval
 from ..heap import prov, taint
 from ..model import AnalysisError, FuncInfo, norm, short
@@ -246,6 +247,7 @@ class LenInterp:
             return Iv()
         if isinstance(e, ast.JoinedStr):
             lo = hi = 0
+            derived = False
             for p in e.values:
                 if isinstance(p, ast.Constant):
                     lo += len(p.value); hi += len(p.value)
@@ -264,7 +266,9 @@ class LenInterp:
                             vlo, vhi = 1, INF
                     lo += vlo
                     hi += vhi
-            return Iv(lo, hi)
+                    if v.kind == "derived" and vhi == INF:
+                        derived = True
+            return Iv(lo, hi, "derived" if derived else "str")
         if isinstance(e, ast.BinOp) and isinstance(e.op, ast.Add):
             a, b = self.ev(fi, e.left, env), self.ev(fi, e.right, env)
             if a.kind == "num" or b.kind == "num":
@@ -278,10 +282,30 @@ class LenInterp:
             b = self.ev(fi, e.value, env)
             lo = try_const(self.ctx, fi, e.slice.lower) if e.slice.lower is not None else 0
             hi = try_const(self.ctx, fi, e.slice.upper) if e.slice.upper is not None else None
+            if e.slice.step is None and e.slice.lower is not None and e.slice.upper is not None and not (isinstance(lo, int) and isinstance(hi, int)):
+                # symbolic bounds: if upper - lower is the same constant for several values of the free variables, that bounds the length
+                free = sorted({n.id for n in ast.walk(e.slice) if isinstance(n, ast.Name)})
+                diffs = set()
+                try:
+                    for k in range(0, 5):
+                        envk = {}
+                        for nm in free:
+                            c = try_const(self.ctx, fi, ast.Name(nm, ast.Load()))
+                            envk[nm] = c if isinstance(c, int) else k
+                        a_, b_ = ceval(e.slice.lower, envk), ceval(e.slice.upper, envk)
+                        if not (isinstance(a_, int) and isinstance(b_, int) and 0 <= a_ <= b_):
+                            raise ValueError
+                        diffs.add(b_ - a_)
+                except Exception:
+                    diffs = set()
+                if len(diffs) == 1:
+                    w = diffs.pop()
+                    return Iv(0, min(b.hi, w))
+                return Iv(0, b.hi, "derived" if b.hi == INF else "str")
             if e.slice.step is not None or not isinstance(lo, int) or (hi is not None and not isinstance(hi, int)) or lo < 0 or (hi is not None and hi < 0):
-                return Iv(0, b.hi)
+                return Iv(0, b.hi, "derived" if b.hi == INF else "str")
             if hi is None:
-                return Iv(max(b.lo - lo, 0), max(b.hi - lo, 0) if b.hi != INF else INF)
+                return Iv(max(b.lo - lo, 0), max(b.hi - lo, 0) if b.hi != INF else INF, b.kind)
             return Iv(max(min(b.lo, hi) - lo, 0), max(min(b.hi, hi) - lo, 0))
         if isinstance(e, ast.Call):
             if isinstance(e.func, ast.Attribute):
@@ -373,6 +397,8 @@ def r_len(ctx) -> RuleResult:
             continue
         n += 1
         ok = iv.hi <= LIMIT
+        if not ok and iv.hi == INF and iv.kind == "derived":
+            raise AnalysisError(f"R-LEN: cannot bound the length of `{short(call, 80)}` at {fi.loc(call)} (slice with non-constant bounds); neither proved nor refuted")
         res.inst(fi.fq, short(call, 90), "ok" if ok else "fail", detail=f"length in {iv}")
         if not ok:
             res.fail(Finding("R-LEN", fi.module.rel, fi.qualname, norm(call),
@@ -470,6 +496,26 @@ def r_wrap(ctx) -> RuleResult:
         res.inst(wh.fq, short(n), "ok" if ok else "fail", detail="chunk emitted + rest kept = whole text")
         if not ok:
             res.fail(Finding("R-WRAP", wh.module.rel, wh.qualname, norm(n), "wrapping drops or duplicates characters (emitted chunk and kept rest do not partition the text)", line=n.lineno))
+    # on every path through the wrap helper the last line appended is the final (un-continued) form
+    cfgw = cfg_of(wh.node)
+    final_nodes, cont_nodes = set(), set()
+    for a in apps:
+        lead, trail = _fstring_parts(a.args[0])
+        n_ = cfgw.stmt_node_containing(a)
+        (cont_nodes if trail else final_nodes).add(n_)
+    import networkx as nx
+    g2 = cfgw.g.copy()
+    g2.remove_nodes_from([n_ for n_ in final_nodes if n_ is not None])
+    bad_path = None
+    for c_ in cont_nodes:
+        if c_ is not None and c_ in g2 and cfgw.EXIT in nx.descendants(g2, c_):
+            bad_path = nx.shortest_path(g2, c_, cfgw.EXIT)
+    # also: a path from entry to exit that appends nothing
+    res.inst(wh.fq, "after a continued chunk the final chunk is always written", "ok" if bad_path is None else "fail")
+    if bad_path is not None:
+        res.fail(Finding("R-WRAP", wh.module.rel, wh.qualname, "path: " + " ; ".join(cfgw.describe(x) for x in bad_path[:-1]),
+                         "a wrapped line can end with a continued chunk (trailing continuation character) and no final chunk: the reader splices the next record onto it",
+                         line=wh.node.lineno))
     # last character of every logical line
     text_param = params_of(wh.node)[1] if len(params_of(wh.node)) > 1 else None
     n_lines = 0
